@@ -1042,6 +1042,9 @@ func c18Gen_(g *G) {
 		c.sequence(triples[ti], tg[(ti+1)%len(tg)])
 	}
 
+	// 9. long inputs: "all passwords", "salts of any length"
+	c.longInputs(tg, others[1])
+
 	// empty password: the 'no password' answer whatever else is given
 	empty := c18Triple{[]byte{}, triples[0].s1, triples[0].s2, "empty"}
 	for _, gr := range []c18Group{tg[1], others[6], {[]byte{}, 3, "p-empty"}} {
@@ -1053,6 +1056,91 @@ func c18Gen_(g *G) {
 			}
 			c.emitSrp(empty, gr, g.R.Bytes(256), sb, true, srv.v, big.NewInt(7), "empty-password")
 			c.emitPub(empty, "mp", gr, sb, 42, nil, nil, "empty-password")
+		}
+	}
+}
+
+// longInputs: passwords and salts far beyond the sizes Telegram hands out. The property quantifies over "all
+// passwords" and "salts of any length"; every generated triple so far had a password of at most 348 bytes and salts
+// of at most 100. Lengths: 0, 1, the neighbourhood of the hash block sizes (SHA-256: 55/56 — where the padding
+// spills into another block — 63, 64, 65; SHA-512 / HMAC: 119, 127, 128, 129), 500, 1023, 1024, 1025, 4096, 65536 —
+// each of password, salt1, salt2 swept alone (the other two of Telegram's own sizes), and in combination.
+// Every case is an honest exchange judged by the harness's server (which hashes with the streaming
+// crypto/sha256 and its own PBKDF2); long passwords are also answered with a password that differs from the right
+// one in the last byte only / is one byte shorter / one byte longer (must be rejected). PH2 is on the line
+// (computed by the harness) except where said, so the Lean side adds no PBKDF2 run for these.
+func (c *c18Gen) longInputs(tg []c18Group, odd c18Group) {
+	g := c.g
+	r := g.R
+	all := []int{0, 1, 55, 56, 63, 64, 65, 119, 127, 128, 129, 500, 1023, 1024, 1025, 4096, 65536}
+	lens := all
+	if !g.Thorough() {
+		lens = []int{0, 1, []int{55, 56, 63, 64, 65}[r.Intn(5)], []int{119, 127, 128, 129}[r.Intn(4)], 500, 1024, 1025, 4096, 65536}
+	}
+	pwOf := func(n int) []byte { // valid UTF-8 now and then, arbitrary bytes otherwise (a Go string holds either)
+		if n >= 8 && r.Intn(3) == 0 {
+			return []byte(strings.Repeat("пароль密🔑", n/16+1))[:n]
+		}
+		b := r.Bytes(n)
+		return b
+	}
+	triple := func(np, n1, n2 int) c18Triple {
+		return c18Triple{pwOf(np), r.Bytes(n1), r.Bytes(n2), fmt.Sprintf("len%d", np)}
+	}
+	group := func() c18Group {
+		if r.Intn(5) == 0 {
+			return odd
+		}
+		return tg[r.Intn(len(tg))]
+	}
+	exchange := func(t c18Triple, xKnown bool, tags ...string) {
+		tags = append(tags, "long-inputs", fmt.Sprintf("salt1len:%d", len(t.s1)), fmt.Sprintf("salt2len:%d", len(t.s2)))
+		c.honest(t, group(), r.Bytes(256), c.randNum(256), xKnown, tags...)
+	}
+	// one dimension at a time
+	kdfInDriver := 500 // the Lean driver computes PH2 itself for one long salt1 (HMAC message of several blocks)
+	for _, n := range lens {
+		if n > 0 {
+			exchange(triple(n, 40, 16), true, "long:password")
+		} else {
+			exchange(triple(0, 65536, 1024), true, "long:password", "empty-password")
+		}
+		exchange(triple(12, n, 16), n != kdfInDriver, "long:salt1")
+		exchange(triple(12, 40, n), true, "long:salt2")
+	}
+	// in combination
+	combos := [][3]int{{1024, 1024, 1024}, {65536, 65536, 65536}, {500, 500, 500}, {4096, 0, 4096}, {1, 65536, 0}, {65536, 1, 1}}
+	for i, n := 0, g.N(3, 40); i < n; i++ {
+		combos = append(combos, [3]int{all[1+r.Intn(len(all)-1)], all[r.Intn(len(all))], all[r.Intn(len(all))]})
+	}
+	for _, k := range combos {
+		exchange(triple(k[0], k[1], k[2]), true, "long:combination")
+	}
+	// "and only for it": a long password and one that differs from it at the very end
+	wl := []int{1024, 4096, 65536}
+	if g.Thorough() {
+		wl = []int{500, 1023, 1024, 1025, 2048, 4096, 65536}
+	}
+	for i, n := range wl {
+		t := triple(n, []int{40, 0, 500}[i%3], []int{16, 1024, 0}[i%3])
+		flip := append([]byte{}, t.pw...)
+		flip[n-1] ^= 1
+		ws := []c18Triple{{flip, t.s1, t.s2, "wrong-last-byte"}}
+		if i == 0 || g.Thorough() {
+			ws = append(ws, c18Triple{t.pw[:n-1], t.s1, t.s2, "wrong-truncated"}, c18Triple{append(append([]byte{}, t.pw...), 'x'), t.s1, t.s2, "wrong-one-more-byte"})
+		}
+		for _, w := range ws {
+			c.wrong(t, w, tg[r.Intn(len(tg))])
+		}
+	}
+	// through the public entry point
+	for _, k := range [][3]int{{4096, 40, 16}, {12, 1024, 16}, {12, 40, 65536}} {
+		t := triple(k[0], k[1], k[2])
+		gr := tg[r.Intn(len(tg))]
+		srv := c18Srv(t, gr)
+		b := c.randNum(256)
+		if B := srv.B(b); B.Sign() != 0 {
+			c.emitPub(t, "mp", gr, c18Pad(B), int64(r.U64()), srv.v, b, "honest", "long-inputs")
 		}
 	}
 }
